@@ -320,6 +320,16 @@ def gen_adversarial(rng, tier):
             (1 << 34) + 4, (1 << 34) + 3, (1 << 34) + 5, MAXU, MAXU - 1, MAXU - 2, MAXU - 58, (1 << 63) - 25, (1 << 63) + 29,
             (1 << 32) - 5, (1 << 32) + 15, ((1 << 32) - 5) * ((1 << 32) - 17), 0, 1]
     adv["edges"] = edge
+    # three or more prime factors, all above the trial-division table (541): Pollard's rho may return a composite divisor, which
+    # find_prime_factor must keep splitting (small ones only: the model's rho runs on Nat)
+    small = [q for q in range(547, 1400) if all(q % d for d in range(2, int(q ** 0.5) + 1))]
+    r3 = [208489597, 217524943, 547 ** 3, 547 * 547 * 557, 547 * 557 * 563]
+    for _ in range(8 * k):
+        a, b, c = rng.choice(small), rng.choice(small), rng.choice(small)
+        r3.append(a * b * c)
+    for _ in range(2 * k):
+        r3.append(rng.choice(small[:40]) * rng.choice(small[:40]) * rng.choice(small[:40]) * rng.choice(small[:40]))
+    adv["rough_3plus_factors"] = sorted(set(r3))
     adv["is_perfect_square_false_positives"] = list(SQUARE_FALSE_POSITIVES)
     return adv
 
@@ -615,6 +625,25 @@ int main() {
             }
             printf("n=%llu prime_bad=%llu first=%llu primes=%llu fn=%llu factor_bad=%llu ffirst=%llu fgot=%llu nontrivial_factor=%llu ub=%ld\n",
                    n, bad, first, primes, fn, fbad, ffirst, fgot, rho, g_ub - u0);
+        } else if (!strcmp(cmd, "ROUGH")) {
+            // ROUGH lo hi k : every multiset of k (3 or 4) primes p1 <= ... <= pk in [lo, hi): find_prime_factor(p1*...*pk) must be one of them
+            // (numbers with three or more prime factors beyond the trial-division table are where Pollard's rho can return a COMPOSITE divisor)
+            if (sscanf(line, "%*s %llu %llu %llu", &a, &b, &c) != 3 || b <= a || c < 3 || c > 4) { puts("bad"); continue; }
+            std::vector<uint64_t> ps;
+            for (uint64_t x = a | 1; x < b; x += 2) { bool pr = x > 2; for (uint64_t q = 3; q * q <= x && pr; q += 2) if (x % q == 0) pr = false; if (pr) ps.push_back(x); }
+            ull n = 0, bad = 0, first = 0, fgot = 0, skipped = 0; long u0 = g_ub;
+            g_what = "ROUGH";
+            size_t m = ps.size();
+            for (size_t i = 0; i < m; ++i) for (size_t j = i; j < m; ++j) for (size_t k = j; k < m; ++k)
+                for (size_t l = (c == 4 ? k : m - 1); l < m; ++l) {
+                    u128 prod = (u128)ps[i] * ps[j] * ps[k]; if (prod >> 64) { ++skipped; continue; }
+                    if (c == 4) { prod *= ps[l]; if (prod >> 64) { ++skipped; continue; } }
+                    uint64_t x = (uint64_t)prod; g_cur = x;
+                    uint64_t f = d::find_prime_factor(x); ++n;
+                    bool ok = f == ps[i] || f == ps[j] || f == ps[k] || (c == 4 && f == ps[l]);
+                    if (!ok) { if (!bad++) { first = x; fgot = f; } }
+                }
+            printf("n=%llu factor_bad=%llu ffirst=%llu fgot=%llu primes=%llu skipped=%llu ub=%ld\n", n, bad, first, fgot, (ull)m, skipped, g_ub - u0);
         } else if (!strcmp(cmd, "RAND")) {
             // RAND seed count : structured + random operand triples of the modular helpers vs unsigned __int128
             if (sscanf(line, "%*s %llu %llu", &a, &b) != 2) { puts("bad"); continue; }
@@ -1069,6 +1098,38 @@ def explore(tier, seed, rng, wd, violations):
                 violations.append({"what": f"unsigned wrap-around inside is_prime / find_prime_factor for some n in {l} "
                                            f"({r['ub']} wrapping operation(s); nothing in these functions may wrap)",
                                    "class": "oracle-wrap-sweep", "rec": {"kind": "sweep", "segment": l, "config": cfg}})
+    # ---- 1b. numbers with >= 3 prime factors, all beyond the trial-division table (rho may find a composite divisor) ----
+    c3 = 2642245                                   # floor(cbrt(2^64))
+    # (window sizes keep every request far below the harness watchdog even on a saturated machine: rho on n ~ 2^60 under
+    # sanitizers costs ~0.1 ms per product)
+    rough_lines = ["ROUGH 542 1000 3", "ROUGH 1000 1300 3", "ROUGH 542 760 4", "ROUGH 65300 65800 3", "ROUGH 65350 65536 4",
+                   f"ROUGH {c3 - 250} {c3} 3", "ROUGH 1048400 1048700 3"]
+    for _ in range(6 if tier == "quick" else 120):
+        lo = rng.randrange(1300, c3 - 2000)
+        rough_lines.append(f"ROUGH {lo} {lo + (200 if tier == 'quick' else 400)} 3")
+    rough_total = {"n": 0, "factor_bad": 0}
+    for ci, (exe, cfg, wc) in enumerate(exes):
+        lines = rough_lines if ci == 0 else rough_lines[:3]
+        try:
+            ans, errs = run_sharded(exe, lines, heavy=lambda l: True, budget=budget)
+        except HarnessFailure as ex:
+            harness_failure_violation(ex, cfg, "rough", violations)
+            continue
+        check_stderr(errs, cfg, wc, "rough", violations)
+        for l, a in zip(lines, ans):
+            r = kv(a)
+            rough_total["n"] += int(r["n"])
+            rough_total["factor_bad"] += int(r["factor_bad"])
+            if int(r["factor_bad"]):
+                n = int(r["ffirst"])
+                violations.append({"what": f"find_prime_factor({n}) = {r['fgot']} is not a prime divisor ({r['factor_bad']} product(s) of "
+                                           f"{l.split()[3]} primes in [{l.split()[1]}, {l.split()[2]}))",
+                                   "class": f"oracle-factor-{n}", "rec": {"kind": "P", "n": n, "config": cfg,
+                                                                         "observable": "find_prime_factor", "segment": l}})
+            if wc and int(r["ub"]):
+                violations.append({"what": f"unsigned wrap-around inside find_prime_factor during {l}", "class": "oracle-wrap-rough",
+                                   "rec": {"kind": "sweep", "segment": l, "config": cfg}})
+    stats["rough_products"] = dict(rough_total, windows=len(rough_lines))
     stats["t_sweep"] = round(time.time() - t0, 1)
     stats["sweep"] = dict(sweep_total, is_prime_below=plimit, find_prime_factor_below=flimit, windows_above=len(sweep_lines) - plimit // seg)
 
